@@ -408,7 +408,10 @@ func report(prop, tier string, seed int, jobs []job, results []*ExploreResult, l
 		path := filepath.Join(verifDir, "replays", fmt.Sprintf("%s-%d.json", prop, nNew))
 		writeReplay(path, prop, v)
 		confirmed := "unconfirmed"
-		if !noReplay {
+		if strings.HasPrefix(v.Label, "ghost-") || v.Kind == "deadlock" {
+			// obligations over engine ghost state (lock ownership, schedules) have no native counterpart
+			confirmed = "engine-level obligation, not natively replayable"
+		} else if !noReplay {
 			ok, out := nativeReplay(repo, lds, path, v)
 			replays++
 			if ok {
